@@ -29,7 +29,7 @@ def run(tier):
     for impl in ('sync', 'async'):
         for L in limits:
             cfg = {'ping_interval': 8, 'ping_timeout': 4, 'max_buf': L}
-            plans.append(dict(what='bodies and frames of limit-2..limit+2, 0, 1, 10x (text and '
+            plans.append(dict(what='bodies and frames of limit-2..limit+2, 0, 1, 10x (text, multi-byte text and '
                                    'binary), declared vs actual length, limit=%d' % L,
                               impl=impl, cfg=cfg, nslots=2, scripts=size_scripts(seed, L, big=L < 10 ** 5)))
         for L in (1, 2, 3):
